@@ -68,6 +68,7 @@ type World struct {
 	EthNonce  map[string]uint64 // nonce for embedded ethereum txs
 	Contract  []ethcmn.Address
 	Factories []ethcmn.Address // deployed "fund, then deploy" factories (see rtFactory)
+	Nests     []ethcmn.Address // deployed self-calling contracts whose inner frame creates an account and reverts (see rtNest)
 
 	Results  []*sim.BlockRes // primary replica's results per block
 	Restarts int             // restarts of the single replica performed so far (BlockSpec.Restart)
